@@ -20,6 +20,7 @@ PROPS["C02"] = dict(
         "Zrnt.Proofs.C02.slashing_multiplier_per_fork",
         "Zrnt.Proofs.C02.justification_eq",
         "Zrnt.Proofs.C02.registry_batched_eq_sequential",
+        "Zrnt.Proofs.C02.registry_first_loop_eq",
         "Zrnt.Proofs.C02.registry_scan_unfixed_witness",
         "Zrnt.Proofs.C02.activation_prefix_eq",
         "Zrnt.Proofs.C02.activations_eq",
